@@ -120,7 +120,9 @@ func runC03(c *Ctx) {
 		}
 		// the defer is registered on every path that reaches a sink (so the step always advances once the body ran)
 		if e.name == "enterPrevote" || e.name == "enterPrecommit" {
+			c.RegistrationIsEvent = true
 			c.Precedes(fn, "defer step update", deferSel, "signing/transition calls", CallTo(csT+`\.(signAddVote|doPrevote)$`, ""))
+			c.RegistrationIsEvent = false
 		}
 	}
 	// enterNewRound: guard ¬(cs.Round == round ∧ cs.Step != NewHeight)
